@@ -1,0 +1,18 @@
+//go:build verif
+
+package kgo
+
+// Verification contracts (comments only), read by /verif/govc. Compiled only with -tags verif; no code.
+
+// ---- C29: sequence numbers wrap from MaxInt32 to 0 (Kafka: DefaultRecordBatch.incrementSequence) ----
+
+//@ spec seqwrap(s int32, n int32) int32 = int32((int64(s) + int64(n)) % (1 << 31))
+
+//@ func incrementSequence(sequence int32, increment int32) (r int32)
+//@   mode bv
+//@   prop C29
+//@   requires 0 <= sequence && 0 <= increment
+//@   nopanic
+//@   pure
+//@   ensures r == seqwrap(sequence, increment)
+//@   ensures 0 <= r
